@@ -589,6 +589,25 @@ fn build_test(c: &BuildCase, obs: &mut Obs) -> CheckResult {
     if let Some(a) = &log.aborted {
         vfail!("accepted-config-hangs", "Builder::build accepted the configuration but the run did not terminate: {a}");
     }
+    // the limits given to the builder are the ones in effect in the recorded state - when the
+    // tracer is built and after its data has been cleared (the TUI's clear-trace-data command)
+    if let Ok(tracer) = c.cfg.build() {
+        for stage in ["built", "cleared"] {
+            let st = tracer.snapshot();
+            vensure!(
+                (st.max_samples(), st.max_flows(), tracer.max_samples(), tracer.max_flows()) == (c.cfg.max_samples, c.cfg.max_flows, c.cfg.max_samples, c.cfg.max_flows),
+                "limits-not-in-effect",
+                "tracer {stage}: max-samples / max-flows given to the builder {} / {}, in effect in the state {} / {}, reported by the tracer {} / {}",
+                c.cfg.max_samples,
+                c.cfg.max_flows,
+                st.max_samples(),
+                st.max_flows(),
+                tracer.max_samples(),
+                tracer.max_flows()
+            );
+            tracer.clear();
+        }
+    }
     obs.class(match &log.result {
         Some(Ok(())) => "ran",
         Some(Err(_)) => "ran-to-error-value",
